@@ -868,6 +868,16 @@ class Gen:
                 kw.append("install_tag: 'odtag'")
             L.append(f"ct_ondemand = custom_target('ondemand', {', '.join(kw)})")
             self.features.add('custom:installed-but-not-built-by-default')
+        # wave 6: compiler.preprocess() targets (type `compile`) over plain AND generated sources
+        r6 = random.Random(f'c15-w6:{self.seed}')
+        if r6.random() < 0.6:
+            self.files['pp_plain.c'] = 'int pp_plain(void) { return 1; }\n'
+            srcs = ["'pp_plain.c'"] + r6.sample(['ct_src[0]', "gen_c.process('pp_g.in')", 'cfg_c'], r6.randint(1, 2))
+            if any('pp_g.in' in x for x in srcs):
+                self.files['pp_g.in'] = 'x\n'
+            L.append("c15cc = meson.get_compiler('c')")
+            L.append(f"c15pp = c15cc.preprocess({', '.join(srcs)}, output: {mstr(r6.choice(['@PLAINNAME@.i', 'pre-@BASENAME@.c']))})")
+            self.features.add('preprocess-target:generated-sources')
         if L:
             self.files['meson.build'] += '\n'.join(L) + '\n'
 
